@@ -556,6 +556,7 @@ Proof.
 Qed.
 
 Section Refine.
+Variable decode : bytes -> result bytes.
 Variable resolve : bytes -> result bytes.
 Variable target : bytes -> bytes -> option (list bytes).
 Variable content : bytes -> Z -> option bytes.
@@ -564,18 +565,20 @@ Variable content : bytes -> Z -> option bytes.
 Definition cart_view_ok (chunks : list bytes) (code : bytes) : Prop :=
   Forall line_like chunks /\ map strip_nl chunks = text_lines code.
 
-(* the model's file system and the Spec's directory content describe the same files *)
-Definition view_ok : Prop := forall name k, name_kind name = Some k -> name_local name = true ->
-  match content name k with
-  | None => exists e, resolve name = Err e
-  | Some txt => exists p, resolve name = Ok p /\
+(* the model's file system and the Spec's directory content describe the same files; the name in the line
+   (P8SCII bytes, base ++ extension) is first decoded to a file name *)
+Definition view_ok : Prop := forall base k,
+  name_kind (base ++ ext_of k) = Some k -> name_local (base ++ ext_of k) = true ->
+  match content (base ++ ext_of k) k with
+  | None => (exists e, decode base = Err e) \/ (exists nm e, decode base = Ok nm /\ resolve (nm ++ ext_of k) = Err e)
+  | Some txt => exists nm p, decode base = Ok nm /\ resolve (nm ++ ext_of k) = Ok p /\
       (k = 0 -> target p (ext_of 0) = Some (file_lines txt)) /\
       (k <> 0 -> exists chunks, target p (ext_of k) = Some chunks /\ cart_view_ok chunks txt)
   end.
 
 Hypothesis Hview : view_ok.
 
-Notation expand_m := (expand_line 1 resolve target).
+Notation expand_m := (expand_line 1 true decode resolve target).
 
 Lemma map_yielded ls : Forall line_like ls ->
   Forall terminated (map (yielded 1) ls) /\ map strip_nl (map (yielded 1) ls) = map strip_nl ls.
@@ -585,7 +588,51 @@ Proof.
   rewrite H2, IH2. reflexivity.
 Qed.
 
-(* one line of the including cart *)
+(* one line of the including cart, as the reader hands it over: with its "\n", or - the last line of a
+   file that does not end in a newline - without *)
+Lemma expand_refines_gen body nl :
+  is_term nl -> no_nl body ->
+  match expand content body with
+  | SpOk ls => exists c, expand_m (body ++ nl) = Ok c /\
+                 ((Forall terminated c /\ map strip_nl c = ls) \/ (nl = [] /\ c = [body] /\ ls = [body]))
+  | SpMissing => exists e, expand_m (body ++ nl) = Err e
+  | SpUndefined => True
+  end.
+Proof.
+  intros Hnl Hb. unfold expand. destruct (classify body) as [|name k tab|] eqn:Ec; [| |exact I].
+  - (* plain *)
+    exists [body ++ nl]. split; [apply plain_line_expands; apply classify_plain_agrees; [exact Hnl|exact Ec]|].
+    destruct Hnl as [-> | ->].
+    + right. rewrite app_nil_r. repeat split.
+    + left. split; [constructor; [exists body; split; [reflexivity|exact Hb]|constructor]|].
+      cbn [map]. rewrite (strip_nl_term body Hb). reflexivity.
+  - (* include *)
+    destruct (classify_include_agrees body name k tab nl Hnl Ec) as (base & Hm & Hname & Hk & Hl & Hk0).
+    unfold expand_line. rewrite Hm. unfold include_lines. cbn [negb].
+    rewrite Hname in Hk, Hl. pose proof (Hview base k Hk Hl) as Hv. rewrite <- Hname in Hv. unfold target_lines.
+    destruct (content name k) as [txt|].
+    2:{ destruct Hv as [(e & ->)|(nm & e & -> & Hr)]; [exists e; reflexivity|]. cbn [bind]. rewrite Hr. exists e. reflexivity. }
+    destruct Hv as (nm & p & -> & Hr & Hlua & Hcart). cbn [bind]. rewrite Hr. cbn [bind].
+    destruct (Z.eq_dec k 0) as [->|Hk1].
+    + (* text file *)
+      rewrite (Hlua eq_refl), (Hk0 eq_refl). cbn [ext_of Z.eqb is_cart_ext].
+      change (is_cart_ext ext_lua) with false. cbv iota.
+      destruct (map_yielded (file_lines txt) (file_lines_line_like txt)) as [H1 H2].
+      eexists. split; [reflexivity|]. left. split; [exact H1|]. rewrite H2. apply file_lines_text.
+    + (* cart *)
+      destruct (Hcart Hk1) as (chunks & -> & Hll & Hmap).
+      assert (Hce : is_cart_ext (ext_of k) = true).
+      { destruct (name_kind_some _ k Hk) as (_ & _ & _ & [->|[->| ->]]); [congruence|reflexivity|reflexivity]. }
+      rewrite Hce. destruct tab as [n|].
+      * destruct (tabs_defined (text_lines txt)) eqn:Et; [|exact I].
+        destruct (map_yielded _ (lines_for_tab_line_like chunks (Some n) Hll)) as [H1 H2].
+        eexists. split; [reflexivity|]. left. split; [exact H1|]. rewrite H2, <- Hmap.
+        apply lines_for_tab_tabs; [exact (classify_tab_nonneg body name k n Ec)|rewrite Hmap; exact Et].
+      * destruct (lines_for_tab_spec chunks) as (Hall & _). rewrite Hall.
+        destruct (map_yielded chunks Hll) as [H1 H2].
+        eexists. split; [reflexivity|]. left. split; [exact H1|]. rewrite H2. exact Hmap.
+Qed.
+
 Lemma expand_refines body :
   no_nl body ->
   match expand content body with
@@ -594,36 +641,9 @@ Lemma expand_refines body :
   | SpUndefined => True
   end.
 Proof.
-  intros Hb. unfold expand. destruct (classify body) as [|name k tab|] eqn:Ec; [| |exact I].
-  - (* plain *)
-    exists [body ++ [10]]. split; [apply plain_line_expands; apply classify_plain_agrees; [right; reflexivity|exact Ec]|].
-    split; [constructor; [exists body; split; [reflexivity|exact Hb]|constructor]|].
-    cbn [map]. rewrite (strip_nl_term body Hb). reflexivity.
-  - (* include *)
-    destruct (classify_include_agrees body name k tab [10] (or_intror eq_refl) Ec) as (base & Hm & Hname & Hk & Hl & Hk0).
-    unfold expand_line. rewrite Hm. unfold include_lines. rewrite <- Hname.
-    specialize (Hview name k Hk Hl). unfold target_lines.
-    destruct (content name k) as [txt|].
-    2:{ destruct Hview as (e & ->). exists e. reflexivity. }
-    destruct Hview as (p & -> & Hlua & Hcart). cbn [bind].
-    destruct (Z.eq_dec k 0) as [->|Hk1].
-    + (* text file *)
-      rewrite (Hlua eq_refl), (Hk0 eq_refl). cbn [ext_of Z.eqb is_cart_ext].
-      change (is_cart_ext ext_lua) with false. cbv iota.
-      destruct (map_yielded (file_lines txt) (file_lines_line_like txt)) as [H1 H2].
-      eexists. split; [reflexivity|]. split; [exact H1|]. rewrite H2. apply file_lines_text.
-    + (* cart *)
-      destruct (Hcart Hk1) as (chunks & -> & Hll & Hmap).
-      assert (Hce : is_cart_ext (ext_of k) = true).
-      { destruct (name_kind_some name k Hk) as (_ & _ & _ & [->|[->| ->]]); [congruence|reflexivity|reflexivity]. }
-      rewrite Hce. destruct tab as [n|].
-      * destruct (tabs_defined (text_lines txt)) eqn:Et; [|exact I].
-        destruct (map_yielded _ (lines_for_tab_line_like chunks (Some n) Hll)) as [H1 H2].
-        eexists. split; [reflexivity|]. split; [exact H1|]. rewrite H2, <- Hmap.
-        apply lines_for_tab_tabs; [exact (classify_tab_nonneg body name k n Ec)|rewrite Hmap; exact Et].
-      * destruct (lines_for_tab_spec chunks) as (Hall & _). rewrite Hall.
-        destruct (map_yielded chunks Hll) as [H1 H2].
-        eexists. split; [reflexivity|]. split; [exact H1|]. rewrite H2. exact Hmap.
+  intros Hb. pose proof (expand_refines_gen body [10] (or_intror eq_refl) Hb) as H.
+  destruct (expand content body) as [ls| |]; [|exact H|exact I].
+  destruct H as (c & Hc & [H|(E & _)]); [exists c; split; [exact Hc|exact H]|discriminate].
 Qed.
 
 (* the whole cart: host chunks are the terminated lines the .p8 reader produces *)
@@ -631,8 +651,8 @@ Lemma splice_refines bodies :
   Forall no_nl bodies ->
   let hs := map (fun b => b ++ [10]) bodies in
   match ref_splice content bodies with
-  | SpOk ls => exists out, process_includes 1 resolve target hs = Ok out /\ Forall terminated out /\ map strip_nl out = ls
-  | SpMissing => exists e, process_includes 1 resolve target hs = Err e
+  | SpOk ls => exists out, process_includes 1 true decode resolve target hs = Ok out /\ Forall terminated out /\ map strip_nl out = ls
+  | SpMissing => exists e, process_includes 1 true decode resolve target hs = Err e
   | SpUndefined => True
   end.
 Proof.
@@ -657,7 +677,7 @@ Definition model_outcome (r : result (list bytes)) : option bytes :=
 Lemma model_meets_spec bodies :
   Forall no_nl bodies ->
   let hs := map (fun b => b ++ [10]) bodies in
-  let impl := model_outcome (process_includes 1 resolve target hs) in
+  let impl := model_outcome (process_includes 1 true decode resolve target hs) in
   text_lines (concat hs) = bodies /\
   match ref_splice content bodies with
   | SpOk ls => exists t, impl = Some t /\ text_lines t = ls
@@ -677,17 +697,78 @@ Proof.
       pose proof (text_lines_terminated out [] Ho1) as Ht. rewrite !app_nil_r in Ht. rewrite Ht. exact Ho2.
     + destruct H as (e & ->). reflexivity.
 Qed.
+(* the same when the cart's last line has no final newline (a .p8 file that ends inside its code section) *)
+Lemma text_lines_last body : no_nl body -> body <> [] -> text_lines body = [body].
+Proof.
+  induction body as [|c b IH]; intros H Hne; [congruence|].
+  unfold no_nl in H. cbn [forallb] in H. apply andb_true_iff in H as [Hc Hb]. apply negb_true_iff in Hc.
+  cbn [text_lines]. rewrite Hc. destruct b as [|d b']; [reflexivity|].
+  rewrite (IH Hb) by discriminate. reflexivity.
+Qed.
+
+Lemma splice_refines_last init last :
+  Forall no_nl init -> no_nl last -> last <> [] ->
+  let hs := map (fun b => b ++ [10]) init ++ [last] in
+  match ref_splice content (init ++ [last]) with
+  | SpOk ls => exists out, process_includes 1 true decode resolve target hs = Ok out /\ text_lines (concat out) = ls
+  | SpMissing => exists e, process_includes 1 true decode resolve target hs = Err e
+  | SpUndefined => True
+  end.
+Proof.
+  intros Hi Hl Hne. cbv zeta. induction Hi as [|b r Hb1 _ IH].
+  - cbn [app map ref_splice]. rewrite process_includes_collect. cbn [map collect].
+    pose proof (expand_refines_gen last [] (or_introl eq_refl) Hl) as He. rewrite app_nil_r in He.
+    destruct (expand content last) as [ls| |]; cbn [sp_seq]; [| |exact I].
+    + rewrite (app_nil_r ls). destruct He as (c & -> & [(Ht & Hm)|(_ & -> & ->)]); cbn [bind]; rewrite app_nil_r.
+      * exists c. split; [reflexivity|]. pose proof (text_lines_terminated c [] Ht) as H. rewrite !app_nil_r in H.
+        rewrite H. exact Hm.
+      * exists [last]. split; [reflexivity|]. cbn [concat]. rewrite app_nil_r. apply text_lines_last; assumption.
+    + destruct He as (e & ->). exists e. reflexivity.
+  - cbn [app ref_splice map]. rewrite process_includes_collect. cbn [map collect]. rewrite <- process_includes_collect.
+    pose proof (expand_refines b Hb1) as He.
+    destruct (sp_seq (expand content b) (ref_splice content (r ++ [last]))) as [ls| |] eqn:Es; [| |exact I].
+    + apply sp_seq_ok in Es as (x & y & Ex & Ey & ->). rewrite Ex in He. rewrite Ey in IH.
+      destruct He as (c & -> & Hc1 & Hc2). destruct IH as (out & -> & Ho). cbn [bind].
+      exists (c ++ out). split; [reflexivity|]. rewrite concat_app, (text_lines_terminated c _ Hc1), Hc2, Ho. reflexivity.
+    + apply sp_seq_missing in Es as [Ex|(x & Ex & Ey)].
+      * rewrite Ex in He. destruct He as (e & ->). exists e. reflexivity.
+      * rewrite Ex in He. rewrite Ey in IH. destruct He as (c & -> & _). destruct IH as (e & ->).
+        exists e. reflexivity.
+Qed.
+
+Lemma model_meets_spec_last init last :
+  Forall no_nl init -> no_nl last -> last <> [] ->
+  let hs := map (fun b => b ++ [10]) init ++ [last] in
+  let impl := model_outcome (process_includes 1 true decode resolve target hs) in
+  text_lines (concat hs) = init ++ [last] /\
+  match ref_splice content (init ++ [last]) with
+  | SpOk ls => exists t, impl = Some t /\ text_lines t = ls
+  | SpMissing => impl = None
+  | SpUndefined => True
+  end.
+Proof.
+  intros Hi Hl Hne. cbv zeta. split.
+  - assert (Ht : Forall terminated (map (fun b => b ++ [10]) init)).
+    { apply Forall_forall. intros l Hin. apply in_map_iff in Hin as (b & <- & Hb). exists b. split; [reflexivity|].
+      rewrite Forall_forall in Hi. apply Hi. exact Hb. }
+    rewrite concat_app. cbn [concat]. rewrite app_nil_r, (text_lines_terminated _ last Ht), map_map, (text_lines_last last Hl Hne).
+    f_equal. clear Ht. induction Hi as [|b r Hb1 _ IH]; [reflexivity|]. cbn [map]. rewrite (strip_nl_term b Hb1), IH. reflexivity.
+  - pose proof (splice_refines_last init last Hi Hl Hne) as H. cbv zeta in H.
+    destruct (ref_splice content (init ++ [last])) as [ls| |]; [| |exact I].
+    + destruct H as (out & -> & Ho). exists (concat out). split; [reflexivity|exact Ho].
+    + destruct H as (e & ->). reflexivity.
+Qed.
 End Refine.
 
 (* ... hence the instance predicate holds of the model's own result *)
-Lemma model_holds_C20 resolve target files bodies :
-  view_ok resolve target (HoldsC20.lookup_content files) ->
+Lemma model_holds_C20 decode resolve target files bodies :
+  view_ok decode resolve target (HoldsC20.lookup_content files) ->
   Forall no_nl bodies ->
   let hs := map (fun b => b ++ [10]) bodies in
-  HoldsC20.holds_C20 (concat hs) files (model_outcome (process_includes 1 resolve target hs)) = true.
+  HoldsC20.holds_C20 (concat hs) files (model_outcome (process_includes 1 true decode resolve target hs)) = true.
 Proof.
   intros Hv Hb. cbv zeta.
-  destruct (model_meets_spec resolve target (HoldsC20.lookup_content files) Hv bodies Hb) as [Ht Hs].
+  destruct (model_meets_spec decode resolve target (HoldsC20.lookup_content files) Hv bodies Hb) as [Ht Hs].
   cbv zeta in Ht, Hs. unfold HoldsC20.holds_C20, HoldsC20.judge_C20. rewrite Ht.
   destruct (ref_splice (HoldsC20.lookup_content files) bodies) as [ls| |]; [| |reflexivity].
   - destruct Hs as (t & -> & <-). rewrite lines_eqb_refl. reflexivity.
@@ -697,15 +778,19 @@ Qed.
 (* ------------------------------------------------------------------ statements for Properties/C20.v *)
 From PV Require Import Model.FilesInst Proofs.IncludeProofs Generated.T_files_p8.
 
+Definition has_name (filename : option bytes) : bool := match filename with Some _ => true | None => false end.
+
 Definition resolve_now (cwd home : bytes) (fs : fsview) (filename : option bytes) : bytes -> result bytes :=
   match filename with
   | Some f => resolve_include_now cwd home (fs_isfile fs) f
   | None => fun _ => Err AssertionError
   end.
 
-(* what one line of the including cart turns into (today's code: included lines get their newline) *)
+(* what one line of the including cart turns into (today's code: the name is decoded as P8SCII, tabs are
+   selected on text lines, included lines get their newline) *)
 Definition expand_now (cwd home : bytes) (fs : fsview) (filename : option bytes) : bytes -> result (list bytes) :=
-  expand_line include_newline_kind (resolve_now cwd home fs filename) (fs_target include_cart_lines_kind fs).
+  expand_line include_newline_kind (has_name filename) decode_name_now (resolve_now cwd home fs filename)
+    (fs_target include_cart_lines_kind fs).
 
 Lemma splice_now cwd home fs filename lines out :
   process_includes_now cwd home fs filename lines = Ok out ->
@@ -717,25 +802,35 @@ Lemma splice_complete_now cwd home fs filename lines chunks :
   process_includes_now cwd home fs filename lines = Ok (concat chunks).
 Proof. apply splice_complete. Qed.
 
-(* the three shapes of an expansion: a line that is not an include line is kept as it is; an include
-   line becomes the (selected) lines of its target, which are not examined again *)
+(* the shapes of an expansion: a line that is not an include line is kept as it is; an include line becomes
+   the (selected) lines of its target, which are not examined again *)
 Lemma expand_now_cases cwd home fs filename l :
   match match_include_line l with
   | None => expand_now cwd home fs filename l = Ok [l]
   | Some (path, ext, tab) =>
-    match resolve_now cwd home fs filename (path ++ ext) with
-    | Err e => expand_now cwd home fs filename l = Err e
-    | Ok p =>
-      match fs_target include_cart_lines_kind fs p ext with
-      | None => expand_now cwd home fs filename l = Err OtherError
-      | Some ls => expand_now cwd home fs filename l =
-                   Ok (map (yielded 1) (if is_cart_ext ext then lines_for_tab ls tab else ls))
+    match filename with
+    | None => expand_now cwd home fs filename l = Err AssertionError
+    | Some f =>
+      match decode_name_now path with
+      | Err e => expand_now cwd home fs filename l = Err e
+      | Ok nm =>
+        match resolve_include_now cwd home (fs_isfile fs) f (nm ++ ext) with
+        | Err e => expand_now cwd home fs filename l = Err e
+        | Ok p =>
+          match fs_target include_cart_lines_kind fs p ext with
+          | None => expand_now cwd home fs filename l = Err OtherError
+          | Some ls => expand_now cwd home fs filename l =
+                       Ok (map (yielded 1) (if is_cart_ext ext then lines_for_tab ls tab else ls))
+          end
+        end
       end
     end
   end.
 Proof.
   unfold expand_now, expand_line. destruct (match_include_line l) as [[[path ext] tab]|]; [|reflexivity].
-  unfold include_lines. destruct (resolve_now cwd home fs filename (path ++ ext)) as [p|e]; [|reflexivity].
+  unfold include_lines. destruct filename as [f|]; [|reflexivity]. cbn [has_name negb resolve_now].
+  destruct (decode_name_now path) as [nm|e]; [|reflexivity]. cbn [bind].
+  destruct (resolve_include_now cwd home (fs_isfile fs) f (nm ++ ext)) as [p|e]; [|reflexivity].
   cbn [bind]. destruct (fs_target include_cart_lines_kind fs p ext); reflexivity.
 Qed.
 
@@ -745,17 +840,18 @@ Lemma error_now cwd home fs filename lines l e :
 Proof. apply splice_error. Qed.
 
 (* C20_missing: the first include line whose target is not a file fails the load *)
-Lemma missing_now cwd home fs f pre l post chunks path ext tab :
+Lemma missing_now cwd home fs f pre l post chunks path ext tab nm :
   Forall2 (fun l c => expand_now cwd home fs (Some f) l = Ok c) pre chunks ->
   match_include_line l = Some (path, ext, tab) ->
-  fs_isfile fs (include_full_path cwd f (path ++ ext)) = false ->
+  decode_name_now path = Ok nm ->
+  fs_isfile fs (include_full_path cwd f (nm ++ ext)) = false ->
   process_includes_now cwd home fs (Some f) (pre ++ l :: post) = Err IncludeNotFound \/
   process_includes_now cwd home fs (Some f) (pre ++ l :: post) = Err IncludeOutside.
 Proof.
-  intros Hp Hm Hf.
-  destruct (include_missing pico8_cart_paths root_detection_kind include_containment_kind cwd home (fs_isfile fs) f (path ++ ext) Hf) as [H|H];
-    [left|right]; (apply (splice_first_error _ _ _ pre l post chunks); [exact Hp|]);
-    unfold expand_line; rewrite Hm; unfold include_lines; cbn [resolve_now] in *;
+  intros Hp Hm Hd Hf.
+  destruct (include_missing pico8_cart_paths root_detection_kind include_containment_kind cwd home (fs_isfile fs) f (nm ++ ext) Hf) as [H|H];
+    [left|right]; (apply (splice_first_error _ _ _ _ _ pre l post chunks); [exact Hp|]);
+    unfold expand_line; rewrite Hm; unfold include_lines; cbn [has_name negb resolve_now]; rewrite Hd; cbn [bind];
     unfold resolve_include_now; rewrite H; reflexivity.
 Qed.
 
@@ -765,9 +861,13 @@ Lemma nofile_now cwd home fs pre l post chunks path ext tab :
   match_include_line l = Some (path, ext, tab) ->
   process_includes_now cwd home fs None (pre ++ l :: post) = Err AssertionError.
 Proof.
-  intros Hp Hm. apply (splice_first_error _ _ _ pre l post chunks); [exact Hp|].
+  intros Hp Hm. apply (splice_first_error _ _ _ _ _ pre l post chunks); [exact Hp|].
   unfold expand_line. rewrite Hm. reflexivity.
 Qed.
+
+(* the name is decoded byte by byte; an ASCII name is its own file name *)
+Lemma decode_now_total b : exists nm, decode_name_now b = Ok nm.
+Proof. eexists. reflexivity. Qed.
 
 Lemma recogniser_agrees l nl : is_term nl ->
   match classify l with
@@ -781,39 +881,42 @@ Proof.
   destruct (classify_include_agrees l name k tab nl Hnl E) as (base & H1 & H2 & _). exists base. split; assumption.
 Qed.
 
-(* the file-system view and the directory content describe the same files: a named text file is read
-   as its bytes, a named cart's reader returns the cart's code (in chunks of any shape) *)
-Definition fs_agrees (cwd home : bytes) (fs : fsview) (filename : option bytes)
+(* the file-system view and the directory content describe the same files: the name in the line (base ++
+   extension, P8SCII) decodes to a file name; a named text file is read as its bytes, a named cart's reader
+   returns the cart's code (in chunks of any shape) *)
+Definition fs_agrees (cwd home : bytes) (fs : fsview) (f : bytes)
            (content : bytes -> Z -> option bytes) : Prop :=
-  forall name k, name_kind name = Some k -> name_local name = true ->
-  match content name k with
-  | None => exists e, resolve_now cwd home fs filename name = Err e
-  | Some txt => exists p, resolve_now cwd home fs filename name = Ok p /\
+  forall base k, name_kind (base ++ ext_of k) = Some k -> name_local (base ++ ext_of k) = true ->
+  match content (base ++ ext_of k) k with
+  | None => (exists e, decode_name_now base = Err e) \/
+            (exists nm e, decode_name_now base = Ok nm /\ resolve_include_now cwd home (fs_isfile fs) f (nm ++ ext_of k) = Err e)
+  | Some txt => exists nm p, decode_name_now base = Ok nm /\
+      resolve_include_now cwd home (fs_isfile fs) f (nm ++ ext_of k) = Ok p /\
       (k = 0 -> fs_read fs p = Some txt) /\
       (k <> 0 -> exists chunks, fs_cart fs p = Some chunks /\ concat chunks = txt)
   end.
 
-Lemma fs_agrees_view_ok cwd home fs filename content :
-  fs_agrees cwd home fs filename content ->
-  view_ok (resolve_now cwd home fs filename) (fs_target include_cart_lines_kind fs) content.
+Lemma fs_agrees_view_ok cwd home fs f content :
+  fs_agrees cwd home fs f content ->
+  view_ok decode_name_now (resolve_now cwd home fs (Some f)) (fs_target include_cart_lines_kind fs) content.
 Proof.
-  intros H name k Hk Hl. specialize (H name k Hk Hl). destruct (content name k) as [txt|]; [|exact H].
-  destruct H as (p & Hr & Hlua & Hcart). exists p. split; [exact Hr|]. split.
+  intros H base k Hk Hl. specialize (H base k Hk Hl). destruct (content (base ++ ext_of k) k) as [txt|]; [|exact H].
+  destruct H as (nm & p & Hd & Hr & Hlua & Hcart). exists nm, p. split; [exact Hd|]. split; [exact Hr|]. split.
   - intros ->. unfold fs_target. change (is_cart_ext (ext_of 0)) with false. cbv iota.
     rewrite (Hlua eq_refl). reflexivity.
   - intros Hk1. destruct (Hcart Hk1) as (chunks & Hc & <-). exists (file_lines (concat chunks)). split.
     + unfold fs_target.
       assert (Hce : is_cart_ext (ext_of k) = true).
-      { destruct (name_kind_some name k Hk) as (_ & _ & _ & [->|[->| ->]]); [congruence|reflexivity|reflexivity]. }
+      { destruct (name_kind_some _ k Hk) as (_ & _ & _ & [->|[->| ->]]); [congruence|reflexivity|reflexivity]. }
       rewrite Hce, Hc. reflexivity.
     + split; [apply file_lines_line_like|apply file_lines_text].
 Qed.
 
-Lemma refines_now cwd home fs filename content bodies :
-  fs_agrees cwd home fs filename content ->
+Lemma refines_now cwd home fs f content bodies :
+  fs_agrees cwd home fs f content ->
   Forall no_nl bodies ->
   let hs := map (fun b => b ++ [10]) bodies in
-  let impl := model_outcome (process_includes_now cwd home fs filename hs) in
+  let impl := model_outcome (process_includes_now cwd home fs (Some f) hs) in
   text_lines (concat hs) = bodies /\
   match ref_splice content bodies with
   | SpOk ls => exists t, impl = Some t /\ text_lines t = ls
@@ -822,18 +925,35 @@ Lemma refines_now cwd home fs filename content bodies :
   end.
 Proof.
   intros Hv Hb.
-  exact (model_meets_spec (resolve_now cwd home fs filename) (fs_target include_cart_lines_kind fs) content
+  exact (model_meets_spec decode_name_now (resolve_now cwd home fs (Some f)) (fs_target include_cart_lines_kind fs) content
            (fs_agrees_view_ok _ _ _ _ _ Hv) bodies Hb).
 Qed.
 
-Lemma holds_now cwd home fs filename files bodies :
-  fs_agrees cwd home fs filename (lookup_content files) ->
+Lemma refines_last_now cwd home fs f content init last :
+  fs_agrees cwd home fs f content ->
+  Forall no_nl init -> no_nl last -> last <> [] ->
+  let hs := map (fun b => b ++ [10]) init ++ [last] in
+  let impl := model_outcome (process_includes_now cwd home fs (Some f) hs) in
+  text_lines (concat hs) = init ++ [last] /\
+  match ref_splice content (init ++ [last]) with
+  | SpOk ls => exists t, impl = Some t /\ text_lines t = ls
+  | SpMissing => impl = None
+  | SpUndefined => True
+  end.
+Proof.
+  intros Hv Hi Hl Hne.
+  exact (model_meets_spec_last decode_name_now (resolve_now cwd home fs (Some f)) (fs_target include_cart_lines_kind fs) content
+           (fs_agrees_view_ok _ _ _ _ _ Hv) init last Hi Hl Hne).
+Qed.
+
+Lemma holds_now cwd home fs f files bodies :
+  fs_agrees cwd home fs f (lookup_content files) ->
   Forall no_nl bodies ->
   let hs := map (fun b => b ++ [10]) bodies in
-  holds_C20 (concat hs) files (model_outcome (process_includes_now cwd home fs filename hs)) = true.
+  holds_C20 (concat hs) files (model_outcome (process_includes_now cwd home fs (Some f) hs)) = true.
 Proof.
   intros Hv Hb.
-  exact (model_holds_C20 (resolve_now cwd home fs filename) (fs_target include_cart_lines_kind fs) files bodies
+  exact (model_holds_C20 decode_name_now (resolve_now cwd home fs (Some f)) (fs_target include_cart_lines_kind fs) files bodies
            (fs_agrees_view_ok _ _ _ _ _ Hv) Hb).
 Qed.
 
@@ -846,9 +966,9 @@ Definition g_host : list bytes :=    (* x=1 / #include l.lua / c=d *)
   [[120; 61; 49]; [35; 105; 110; 99; 108; 117; 100; 101; 32; 108; 46; 108; 117; 97]; [99; 61; 100]].
 Definition g_files : list (bytes * Z * bytes) := [([108; 46; 108; 117; 97], 0, [97; 61; 98])].
 Definition g_run (nl_kind : Z) : result (list bytes) :=
-  let cart_kind := include_cart_lines_kind in
-  process_includes nl_kind (resolve_include_now [47] [47; 104] (fs_isfile g_fs) [47; 99; 47; 104; 46; 112; 56])
-    (fs_target cart_kind g_fs) (map (fun b => b ++ [10]) g_host).
+  process_includes nl_kind true decode_name_now
+    (resolve_include_now [47] [47; 104] (fs_isfile g_fs) [47; 99; 47; 104; 46; 112; 56])
+    (fs_target include_cart_lines_kind g_fs) (map (fun b => b ++ [10]) g_host).
 
 Lemma glue_variant_refuted :
   holds_C20 (concat (map (fun b => b ++ [10]) g_host)) g_files (model_outcome (g_run 0)) = false /\
@@ -871,7 +991,8 @@ Definition m_host : list bytes :=   (* #include m.p8:1 *)
   [[35; 105; 110; 99; 108; 117; 100; 101; 32; 109; 46; 112; 56; 58; 49]].
 Definition m_files : list (bytes * Z * bytes) := [([109; 46; 112; 56], 1, m_code)].
 Definition m_run (cart_kind : Z) : result (list bytes) :=
-  process_includes include_newline_kind (resolve_include_now [47] [47; 104] (fs_isfile m_fs) [47; 99; 47; 104; 46; 112; 56])
+  process_includes include_newline_kind true decode_name_now
+    (resolve_include_now [47] [47; 104] (fs_isfile m_fs) [47; 99; 47; 104; 46; 112; 56])
     (fs_target cart_kind m_fs) (map (fun b => b ++ [10]) m_host).
 
 Lemma tab_variant_refuted :
@@ -880,4 +1001,24 @@ Lemma tab_variant_refuted :
   model_outcome (m_run 0) = Some [117; 61; 51; 10] /\                                            (* u=3 *)
   holds_C20 (concat (map (fun b => b ++ [10]) m_host)) m_files (model_outcome (m_run include_cart_lines_kind)) = true /\
   model_outcome (m_run include_cart_lines_kind) = Some [93; 93; 10; 116; 61; 50; 10].            (* ]] / t=2 *)
+Proof. vm_compute. repeat split; reflexivity. Qed.
+
+(* ---- decoding the name as UTF-8 (include_name_decode_kind = 0, the code before the third fix) is refuted:
+        `#include <0x86>.lua` (the glyph byte of a file named U+25CF .lua) raised UnicodeDecodeError ---- *)
+Definition u_name : bytes := [134; 46; 108; 117; 97].                                  (* \x86.lua as it stands in the code line *)
+Definition u_path : bytes := [47; 99; 47; 226; 151; 143; 46; 108; 117; 97].          (* /c/<U+25CF>.lua in UTF-8 *)
+Definition u_fs : fsview :=
+  mk_fsview (fun p => zlist_eqb p u_path) (fun p => if zlist_eqb p u_path then Some [118; 61; 49; 10] else None) (fun _ => None).
+Definition u_host : list bytes := [[35; 105; 110; 99; 108; 117; 100; 101; 32] ++ u_name].   (* #include \x86.lua *)
+Definition u_files : list (bytes * Z * bytes) := [(u_name, 0, [118; 61; 49; 10])].
+Definition u_run (decode_kind : Z) : result (list bytes) :=
+  process_includes include_newline_kind true (decode_name decode_kind)
+    (resolve_include_now [47] [47; 104] (fs_isfile u_fs) [47; 99; 47; 104; 46; 112; 56])
+    (fs_target include_cart_lines_kind u_fs) (map (fun b => b ++ [10]) u_host).
+
+Lemma decode_variant_refuted :
+  u_run 0 = Err UnicodeError /\
+  holds_C20 (concat (map (fun b => b ++ [10]) u_host)) u_files (model_outcome (u_run 0)) = false /\
+  holds_C20 (concat (map (fun b => b ++ [10]) u_host)) u_files (model_outcome (u_run include_name_decode_kind)) = true /\
+  model_outcome (u_run include_name_decode_kind) = Some [118; 61; 49; 10].
 Proof. vm_compute. repeat split; reflexivity. Qed.
